@@ -1100,7 +1100,8 @@ def rand_c15(seed, tier, cases=None):
 
 prop(dict(
     id="C15", fam="C15", rand=rand_c15,
-    mc=[("H264MC.tla", "H264MC.cfg", {}), ("H264MC.tla", "H264MCNoResync.cfg", {}, "expect_violation")],
+    mc=[("H264MC.tla", "H264MC.cfg", {}), ("H264MC.tla", "H264MCNoResync.cfg", {}, "expect_violation"),
+        ("AV1LossMC.tla", "AV1LossMC.cfg", {"thorough": {"Sizes": "{1, 4, 5, 9, 10, 14, 19, 24}"}}), ("AV1LossMC.tla", "AV1LossMCNoResync.cfg", {}, "expect_violation")],
     gen=[("LossGen.tla", "LossGen.cfg", {"thorough": {"MaxA": "10", "Rich": "TRUE"}})],
     trace=("LossTrace.tla", "LossTrace.cfg"),
     shards={"quick": 2, "thorough": 14},
